@@ -346,6 +346,41 @@ func ruleGuardMul(c *Ctx) {
 		}
 		bound, guard := p.guardFor(s.stack, s.target, limbs)
 		if bound == nil {
+			// the guard idioms did not match: ask the interval analysis for the top word at this statement
+			if fd := p.Funcs[s.fn]; fd != nil && len(s.stack) > 0 {
+				var site ast.Node
+				for i := len(s.stack) - 1; i >= 0; i-- {
+					if _, ok := s.stack[i].(ast.Stmt); ok {
+						site = s.stack[i]
+						break
+					}
+				}
+				if site != nil {
+					if env, reached := p.envWalk(fd.Body.List, p.paramEnv(fd), site); reached {
+						k := s.target
+						if limbs > 1 {
+							k = s.target + "[" + itoa(limbs-1) + "]"
+						}
+						if iv, ok := env[k]; ok && iv.hi != nil && iv.hi.Sign() >= 0 {
+							// used only when it settles the question; a useless bound falls through to the reviewed list
+							t := new(big.Int).Add(iv.hi, big.NewInt(1))
+							t.Mul(t, s.K)
+							w := uint(64)
+							if limbs == 1 {
+								w = uint(p.scalarBits(s.typ))
+								if b, ok := s.typ.Underlying().(*types.Basic); ok && b.Info()&types.IsUnsigned == 0 {
+									w--
+								}
+							}
+							if t.Cmp(new(big.Int).Lsh(big.NewInt(1), w)) <= 0 {
+								bound = iv.hi
+							}
+						}
+					}
+				}
+			}
+		}
+		if bound == nil {
 			if why, ok := g1Reviewed(p, s); ok {
 				c.exempt(key, s.node, why, fp...)
 			} else {
